@@ -29,6 +29,9 @@ def prepare(d):
     import struct
     bad = struct.pack("<IIII", 1, 2, 70000, 70000) + b"\x55" * 64          # caplen beyond the snap length (65535)
     open(os.path.join(d, "badrec.pcap"), "wb").write(pcapfmt.global_header() + bad)
+    good = pcapfmt.pcap_file([pcapfmt.simple_tcp_frame()])
+    open(os.path.join(d, "nearmagic.pcap"), "wb").write(b"\x34\xcd" + good[2:])
+    open(os.path.join(d, "halfmagic.pcap"), "wb").write(b"\x00\x00" + good[2:])
     open(os.path.join(d, "damaged.pcap"), "wb").write(pcapfmt.global_header() + pcapfmt.record(pcapfmt.simple_tcp_frame()) + bad +
                                                        pcapfmt.record(pcapfmt.simple_tcp_frame(b"behind")))
     open(os.path.join(d, "garbage.pcap"), "wb").write(b"this is not a pcap file at all, not even close......")
@@ -128,7 +131,7 @@ def run(rep, tier, seed):
                 rep.disagree(sig, {"script": c["src"], "stderr": c["err"][:600], "how": c["how"]})
         rep.cov["distinct_nontrivial"] = len(cases)
         rep.cov["fault_operations"] = sum(1 for c in cases for op in c["ops"] if op["fault"])
-        rep.cov["rule"] = ("TLC-enumerated programs (spec/GenFaults.tla) of one or two operations from the 56-entry operation x "
+        rep.cov["rule"] = ("TLC-enumerated programs (spec/GenFaults.tla) of one or two operations from the 58-entry operation x "
                            "target table (thorough: plus every 29th program of three); distinct = distinct programs; non-trivial = "
                            "the program performs at least one I/O operation (all)")
         rep.cov["exhaustive"] = tier == "quick"
